@@ -251,7 +251,7 @@ def ser_all(m, node, level):
         try:
             return list(fn(node, **kw))
         except BaseException as e:
-            return {"err": str(e.args[0]) if e.args else repr(e)}
+            return [999]        # an impossible byte string marks an error (the field stays a sequence for TLC)
     kw = {} if level is None else {"level": int(level)}
     return {"ser_legacy": f(m.ser_legacy), "ser_backrefs": f(m.ser_backrefs), "ser_2026": f(m.ser_2026, **kw)}
 
@@ -470,13 +470,12 @@ def cmd_convcases(mods, inp, out):
             n += 1
             r = conv_one(mods, kind, t, classic)
             good = r.get("ok") and tree_from_json(r["res"]) == t
-            if kind in FRESH_WRAPPERS:
-                if not good:
+            if not good:
+                fresh = kind in FRESH_WRAPPERS
+                if fresh:
                     wrong_fresh += 1
-                    if not can_fail[key]:
-                        out({"case": tj, "kind": kind, "model_can_fail": False, "observed": r})
-            elif not good:
-                out({"case": tj, "kind": kind, "model_can_fail": "cached wrappers are always right", "observed": r})
+                # cached-children wrappers are always right in the model; fresh ones only where no behaviour fails
+                out({"case": tj, "kind": kind, "model_can_fail": bool(fresh and can_fail[key]), "observed": r})
     out({"done": n, "trees": len(trees), "wrong_fresh": wrong_fresh,
          "model_can_fail": sum(1 for v in can_fail.values() if v)})
 
@@ -506,11 +505,14 @@ def cmd_pure(mods, inp, out):
             t = tree_from_json(e["tree"])
             classic = bytes(e["bytes"])
 
+            errs = {}
+
             def g(f):
                 try:
                     return list(f())
                 except BaseException as ex:
-                    return {"pyexc": repr(ex)}
+                    errs[len(errs)] = repr(ex)
+                    return [999]
 
             def stream():
                 f = io.BytesIO()
@@ -525,7 +527,10 @@ def cmd_pure(mods, inp, out):
                 "tree_hash": g(lambda: program_of(Program, t).tree_hash()),
                 "sha256_treehash": g(lambda: sha256_treehash(StableStorage(t))),
             }
-            out({"ev": "pyser", "case": e["case"], "tree": e["tree"], "rust": e["bytes"], "rust_hash": e["hash"], "py": py})
+            o = {"ev": "pyser", "case": e["case"], "tree": e["tree"], "rust": e["bytes"], "rust_hash": e["hash"], "py": py}
+            if errs:
+                o["py_errors"] = list(errs.values())
+            out(o)
         elif e["ev"] == "pydeser":
             blob = bytes(e["blob"])
 
@@ -566,7 +571,8 @@ def cmd_pure(mods, inp, out):
                     e["py_program"] = list(Program.int_to_bytes(v))
                     e["py_to"] = list(Program.to(v).atom)
                 except BaseException as ex:
-                    e["py"] = {"pyexc": repr(ex)}
+                    e["py"] = [999]
+                    e["py_error"] = repr(ex)
             else:
                 try:
                     v = casts.int_from_bytes(bytes(e["bytes"]))
